@@ -319,6 +319,18 @@ def reuse_items():
     return items
 
 
+def reuse_between():
+    """every shared reader is given a document it rejects half-way between judged reads"""
+    import pycaption
+
+    R = {"srt": pycaption.SRTReader, "webvtt": pycaption.WebVTTReader, "microdvd": pycaption.MicroDVDReader, "dfxp": pycaption.DFXPReader, "sami": pycaption.SAMIReader}
+    for fmt, doc in docs.REJECTED.items():
+        try:
+            shared.obj(R[fmt]).read(doc)
+        except Exception:  # noqa
+            pass
+
+
 def reuse_eval(item):
     return evaluate_raw(*item)
 
@@ -338,7 +350,7 @@ def shards(tier, seed):
 def run_shard(d):
     acc = Acc()
     if d["k"] == "reuse":
-        shared.run(acc, reuse_items(), reuse_eval, sample=lambda it: {"reuse_run_step": list(it)})
+        shared.run(acc, reuse_items(), reuse_eval, between=reuse_between, sample=lambda it: {"reuse_run_step": list(it)})
         return acc.result()
     fmt = d["fmt"]
     P = PIECES[fmt]
@@ -387,6 +399,6 @@ def run_shard(d):
 
 def replay(case):
     if case.get("reuse"):
-        return shared.replay(reuse_items(), reuse_eval, case["index"])
+        return shared.replay(reuse_items(), reuse_eval, case["index"], between=reuse_between)
     v, _ = evaluate(case["fmt"], case["caps"], case["brk"], case["join"], case["wrap"])
     return [{"sig": s, "detail": d} for s, d in v]
